@@ -1,0 +1,13 @@
+//go:build verif
+
+package deadline
+
+// Contracts for the deductive verifier in /verif (vcgo). Comment-only.
+
+//@ func New
+//@   ensures result != nil
+//@ func Deadline.Check
+//@   assumed
+//@   modifies nothing
+//@ func Deadline.Hit
+//@   modifies nothing
